@@ -16,7 +16,8 @@ ROOT = Path(__file__).resolve().parent.parent
 HARNESS = ROOT / "harness"
 WORK = ROOT / ".work"
 REPLAYS = ROOT / "replays"
-EVIDENCE = ROOT / "evidence"
+# development runs against seeded changes write their evidence elsewhere (VERIF_EVIDENCE)
+EVIDENCE = Path(os.environ.get("VERIF_EVIDENCE", ROOT / "evidence"))
 PY = "/venv/bin/python"
 NPROC = min(16, os.cpu_count() or 4)
 
@@ -228,7 +229,7 @@ class Ctx:
         cov.update(self.extra)
         ev = {"property_id": self.pid, "tier": self.tier, "seed": int(self.seed), "level": self.level, "coverage": cov,
               "assumptions": self.assumptions, "wall_s": round(wall, 2), "violations": len(self.violations)}
-        EVIDENCE.mkdir(exist_ok=True)
+        EVIDENCE.mkdir(parents=True, exist_ok=True)
         (EVIDENCE / f"{self.pid}.json").write_text(json.dumps(ev, indent=1))
         for name, cnt in sorted(self.known_hit.items()):
             if name in self.known:
